@@ -413,11 +413,13 @@ vector<string> split_args(const string& s) {
 
   for (size_t z = 0; z < s.size(); z++) {
     bool can_be_space = true;
+    bool has_char = true;
     char to_write = 0;
     if (current_quote) {
       can_be_space = false;
       if (s[z] == current_quote) {
         current_quote = 0;
+        has_char = false;
       } else if (s[z] == '\\') {
         z++;
         if (z >= s.size()) {
@@ -429,6 +431,7 @@ vector<string> split_args(const string& s) {
       }
     } else if ((s[z] == '\"') || (s[z] == '\'')) {
       current_quote = s[z];
+      has_char = false;
     } else if (s[z] == '\\') {
       can_be_space = false;
       z++;
@@ -440,16 +443,14 @@ vector<string> split_args(const string& s) {
       to_write = s[z];
     }
 
-    if (to_write) {
+    if (has_char) {
       bool is_space_between_args = can_be_space && isblank(to_write);
       if (is_space_between_args && in_space_between_args) {
         // Nothing
       } else if (!is_space_between_args && in_space_between_args) {
         // Start of another arg
         ret.emplace_back();
-        if (to_write) {
-          ret.back().push_back(to_write);
-        }
+        ret.back().push_back(to_write);
         in_space_between_args = false;
       } else if (is_space_between_args && !in_space_between_args) {
         in_space_between_args = true;
